@@ -9,6 +9,10 @@ M   : spec/VoteCount.tla (design layer = processVoteMsg / judgeVoteCount / vote 
       equivocating certificate voter whose first vote came early still counts (class equivocator_future_vote, tolerated in
       M_cert_twoindices only; a certificate round cannot be reached on the engine fixture).
 G2  : `tlc -simulate` behaviours over three alphabets (one block / two blocks / two indices with invalid credentials).
+S2  : voter-level stage in a CERTIFICATE round (driver `votecert`: the real ucon.Voter at round 32768 with a stubbed environment,
+      weights 2,2,2, two indices, votes injected with the handler's label or -- skew -- labelled msgSame for another index):
+      VoteCount.tla with CertRound on, checked exhaustively; one behaviour into every distinct design state (mode GV) driven
+      through the real Voter; same monitor (plus CertOnlyAfterPrecommitQuorum), conformance with VoteCount_Trace2.cfg.
 U   : growth stage UconNet (checks/uconnet.py): spec/UconNet.tla checked at design level (thorough), and spec/UconNet_Mon.tla on
       the merged traces of the repository's six-node tests TestUcon (quick, thorough) and TestFork (thorough).
 T   : the driver `votecount` feeds every behaviour to the real ucon engine (real chain, real Server assembled without timers,
@@ -31,6 +35,9 @@ CONSTANTS
   Creds = %(Creds)s
   Known = %(Known)s
   Replay = %(Replay)s
+  Skew = %(Skew)s
+  MaxLost = %(MaxLost)d
+  FutureJudged = %(FutureJudged)s
   Mode = "%(Mode)s"
   MaxOps = %(MaxOps)d
 %(tail)s
@@ -45,21 +52,27 @@ FUTURE_CERT = '{"equivocator_future_vote"}'  # remains at design level: certific
 
 
 def cfg(mode, **kw):
-    d = dict(WSel="c", Blocks=AB, MaxI=1, MaxMsgs=4, Cert="FALSE", Creds=OK, Mode=mode, MaxOps=0, Known="{}", Replay=REPLAY)
+    d = dict(WSel="c", Blocks=AB, MaxI=1, MaxMsgs=4, Cert="FALSE", Creds=OK, Mode=mode, MaxOps=0, Known="{}", Replay=REPLAY, Skew='{"judged"}', MaxLost=1, FutureJudged="TRUE")
     d.update(kw)
     if mode == "M":
         d["head"], d["tail"] = "SPECIFICATION Spec", INVS
+    elif mode == "GV":
+        d["head"], d["tail"] = "SPECIFICATION Spec", INVS.replace("VIEW View", "VIEW ViewV") + "\nINVARIANT LeafV"
     else:
         d["head"], d["tail"] = "INIT Init\nNEXT Next", "CONSTRAINT Leaf"
     return CFG % d
 
 
-def witnesses():
+def witnesses(stage=1):
+    """Stored witnesses; behaviours whose Cfg names a weight table / a certificate round belong to the voter-level stage 2."""
     behs = []
     wdir = os.path.join(vlib.VERIF, "findings")
     for f in sorted(os.listdir(wdir)) if os.path.isdir(wdir) else []:
         if f.startswith("C03_") and f.endswith(".json"):
-            behs += json.load(open(os.path.join(wdir, f)))["behaviours"]
+            for b in json.load(open(os.path.join(wdir, f)))["behaviours"]:
+                s2 = bool(b and (b[0].get("cert") or b[0].get("w") not in (None, "a")))
+                if s2 == (stage == 2):
+                    behs.append(b)
     return behs
 
 
@@ -113,7 +126,7 @@ def generate(ctx):
     # G: simulated behaviours over the fixture's weight table (2,3,4,5,6 ; T=20 ; quorum 13), three alphabets
     rnd = random.Random(ctx.seed)
     num = 500 if quick else 4000
-    cap = 100 if quick else 1000
+    cap = 85 if quick else 1000
     for name, kw, depth in (("G2_oneblock", dict(Blocks='{"A"}'), 12), ("G2_twoblocks", dict(), 15),
                             ("G2_twoindices", dict(MaxI=2, Creds=BOTH), 18)):
         g = ctx.tlc_must("VoteCount", cfg("G", WSel="a", MaxMsgs=depth, MaxOps=depth, **kw), name=name, timeout=1500,
@@ -191,6 +204,78 @@ def selftest(ctx, trace):
         raise vlib.Undecided("trace-checker self-test failed: %s" % ctx.cov["binding_selftest"])
 
 
+def leaves(hs):
+    """Behaviours that are not a proper prefix of another one (the monitor judges every prefix anyway)."""
+    pref = set()
+    for h in hs:
+        for n in range(1, len(h)):
+            pref.add(json.dumps(h[:n], sort_keys=True))
+    return [h for h in hs if json.dumps(h, sort_keys=True) not in pref]
+
+
+AFTERQ = '{"equivocation_after_quorum"}'
+
+
+def stage2(ctx):
+    """Voter-level stage: the real ucon.Voter in a CERTIFICATE round (round 32768), stubbed environment, table g (2,2,2)."""
+    quick = ctx.quick
+    kw = dict(WSel="g", Cert="TRUE", MaxI=2, Skew='{"judged", "same"}', MaxLost=1, FutureJudged="FALSE", Replay="{}", Known=AFTERQ)
+    behs = witnesses(2)
+    nw = len(behs)
+    ok = True
+    runs = [("GV2_oneblock", "GV", dict(Blocks='{"B"}', MaxMsgs=4))]
+    if not quick:
+        runs = [("M2_voterlevel_cert", "M", dict(MaxMsgs=4))] + runs + [("GV2_twoblocks", "GV", dict(MaxMsgs=3))]
+    rnd = random.Random(ctx.seed)
+    for name, mode, k2 in runs:
+        d = dict(kw)
+        d.update(k2)
+        m = ctx.tlc_must("VoteCount", cfg(mode, **d), name=name, timeout=3000)
+        if m.violated:
+            ok = False
+            ctx.cov["design_violation_stage2"] = m.violated
+            for v in m.printed:
+                if isinstance(v, dict) and v.get("kind") == "CEX":
+                    behs.append(v["h"])
+                    ctx.note("stage 2: design-level counterexample for %s exported for replay" % v.get("clause"))
+        if mode == "GV":
+            hs = leaves([v["h"] for v in m.printed if isinstance(v, dict) and v.get("kind") == "B"])
+            hs.sort(key=lambda h: json.dumps(h, sort_keys=True))
+            cap = 12000 if name == "GV2_oneblock" else 15000
+            if len(hs) > cap:
+                rnd.shuffle(hs)
+                hs = hs[:cap]
+            behs += hs
+    ctx.cov["exhaustive"] = bool(ctx.cov.get("exhaustive")) and ok
+    ctx.note("stage 2 (voter level, certificate round): %d witnesses, %d generated behaviours" % (nw, len(behs) - nw))
+    bpath = ctx.path("behaviours2.ndjson")
+    vlib.write_ndjson(bpath, behs)
+    trace = ctx.path("trace2.ndjson")
+    ctx.drive("votecert", trace, behaviours=bpath)
+    ctx.cov["traces_validated_against_impl"] += len(behs)
+    ctx.cov["evaluations"] += len(behs)
+    ctx.cov["stage2_behaviours"] = len(behs)
+    res, _ = vlib.monitor(ctx, "VoteCount_Mon", "VoteCount_Mon.cfg", trace, name="VoteCount_Mon_stage2", behaviours=bpath,
+                          replay_meta={"driver": "votecert"})
+    ctx.cov["stage2_clauses_fired"] = res.get("fired")
+    conf = ctx.tlc("VoteCount_Trace", "VoteCount_Trace2.cfg", name="Conf_stage2", files={"trace.ndjson": trace}, workers=1,
+                   timeout=1500, count=False, xss="256m")
+    acc = [v for v in conf.printed if isinstance(v, dict) and v.get("kind") == "ACCEPTED"]
+    rej = [v for v in conf.printed if isinstance(v, dict) and v.get("kind") == "REJECTED"]
+    if acc:
+        ctx.cov["stage2_conformance"] = "accepted %d events" % acc[0]["events"]
+    else:
+        ctx.cov["drift_events"] += 1
+        ctx.cov["stage2_conformance"] = "rejected: %s" % (json.dumps(rej[0])[:800] if rej else (conf.error or conf.violated or "no verdict"))
+        print("DRIFT: property=C03 the real Voter (certificate round) left the design layer of VoteCount.tla: %s" % ctx.cov["stage2_conformance"], flush=True)
+    fired = res.get("fired") or {}
+    for c in ("PrecommitOnlyAfterPrevoteQuorum", "CertOnlyAfterPrecommitQuorum", "CommitOnlyAfterQuorums"):
+        if not fired.get(c):
+            raise vlib.Undecided("stage 2: clause %s never fired: generator bug" % c)
+    if not ok and not ctx.violations and not ctx.known_hits:
+        raise vlib.Undecided("stage 2: design-level counterexample did not reproduce on the real code: specification drift")
+
+
 def run(ctx):
     ctx.cov["rule"] = ("behaviours = stored witnesses + design counterexamples + simulated behaviours over three alphabets; non-trivial = "
                        "delivers at least three valid votes for one (kind, block, index); distinct by JSON of the action sequence")
@@ -215,6 +300,7 @@ def run(ctx):
             raise vlib.Undecided("clause %s never fired: generator bug" % c)
     if not ok and not ctx.violations and not ctx.known_hits:
         raise vlib.Undecided("design-level counterexample did not reproduce on the real code: specification drift")
+    stage2(ctx)
     # growth stage UconNet (see checks/uconnet.py): the composition at design level, and the C02/C03 clauses plus Agreement
     # on the traces of the repository's own six-node tests (real concurrency), recorded by the verifTrace hooks in voter.go
     if ctx.quick:
@@ -227,4 +313,11 @@ def run(ctx):
 
 def replay(ctx, path):
     data = json.load(open(path))
+    if (data.get("meta") or {}).get("driver") == "votecert" or any(b and (b[0].get("cert") or b[0].get("w") not in (None, "a")) for b in data["behaviours"]):
+        bpath = ctx.path("behaviours2.ndjson")
+        vlib.write_ndjson(bpath, data["behaviours"])
+        trace = ctx.path("trace2.ndjson")
+        ctx.drive("votecert", trace, behaviours=bpath)
+        vlib.monitor(ctx, "VoteCount_Mon", "VoteCount_Mon.cfg", trace, name="VoteCount_Mon_stage2", behaviours=bpath, replay_meta={"driver": "votecert"})
+        return
     judge(ctx, data["behaviours"])
